@@ -166,6 +166,31 @@ func (vc *VC) callFunction(fx *FuncCtx, st *State, fn *ssa.Function, args []Val,
 			return vc.applyContract(fx, st, fc, fn.Signature, args, rt, funcDisplayName(fn))
 		}
 	}
+	// library function described, for this argument's dynamic type, by a `models` contract of a repository package
+	if obj := fn.Object(); obj != nil && obj.Pkg() != nil && len(args) > 0 {
+		if variants := vc.prog.models[obj.Pkg().Path()+"#"+obj.Name()]; len(variants) > 0 {
+			if iv, ok := args[0].(*IfaceV); ok {
+				if bt, ok := vc.boxedType[iv.Data]; ok {
+					for _, mfc := range variants {
+						menv := &SpecEnv{vc: vc, st: st, old: st, vars: map[string]*SV{}, pkg: vc.prog.typesPkgOf(mfc)}
+						if len(mfc.PTypes) == 0 {
+							continue
+						}
+						pt, err := menv.resolveType(mfc.PTypes[0])
+						if err != nil || !types.Identical(pt, bt) {
+							continue
+						}
+						var unboxed Val = iv.Data
+						if bv, ok := vc.boxed[iv.Data]; ok {
+							unboxed = bv
+						}
+						msig := types.NewSignatureType(nil, nil, nil, types.NewTuple(types.NewVar(0, nil, mfc.Params[0], pt)), fn.Signature.Results(), false)
+						return vc.applyContract(fx, st, mfc, msig, []Val{unboxed}, rt, fn.String()+"<"+types.TypeString(bt, qualShort)+">")
+					}
+				}
+			}
+		}
+	}
 	name := fn.String()
 	if m, ok := builtinModels[name]; ok {
 		return m(vc, fx, st, fn, args, rt, instr)
@@ -311,9 +336,81 @@ func (vc *VC) inline(fx *FuncCtx, st *State, fn *ssa.Function, args, bound []Val
 	return &TupleV{Vs: res}
 }
 
+// bumpAlloc accounts for objects a (non-inlined) callee may have allocated: everything it returns lies below a new
+// symbolic allocation base, everything allocated afterwards above it.
+func (vc *VC) bumpAlloc(st *State, results ...Val) {
+	nb := Fresh("ab.call", IntSort)
+	vc.addGlobalFact(Ge(nb, Add(vc.allocBase, IntC(int64(vc.nAlloc)))))
+	vc.allocBase, vc.nAlloc = nb, 0
+	vc.allocBases[nb] = true
+	var walk func(v Val)
+	walk = func(v Val) {
+		switch x := v.(type) {
+		case *Term:
+			if x.Sort.Kind == SInt && x.IsVar {
+				// only reference-typed results are passed here
+				vc.assume(st, Lt(x, nb))
+			}
+		case *SliceV:
+			vc.assume(st, Lt(x.Arr, nb))
+		case *TupleV:
+			for _, e := range x.Vs {
+				walk(e)
+			}
+		}
+	}
+	for _, r := range results {
+		walk(r)
+	}
+}
+
+// touchReachable marks the heap keys that hold objects of the types reachable from a callee's result as possibly
+// containing references to objects the callee allocated (so that their age bound is the post-call watermark).
+func (vc *VC) touchReachable(st *State, t types.Type, depth int, seen map[string]bool) {
+	if depth > 4 || t == nil {
+		return
+	}
+	touch := func(prefix string) bool {
+		if seen[prefix] {
+			return false
+		}
+		seen[prefix] = true
+		for _, name := range vc.reg.sorted() {
+			if keyHasPrefix(name, prefix) {
+				st.touchKey(name)
+			}
+		}
+		return true
+	}
+	switch u := under(t).(type) {
+	case *types.Pointer:
+		if touch(typeKey(u.Elem())) {
+			vc.touchReachable(st, u.Elem(), depth+1, seen)
+		}
+	case *types.Slice:
+		if touch(elemKey(u.Elem())) {
+			vc.touchReachable(st, u.Elem(), depth+1, seen)
+		}
+	case *types.Map:
+		if touch(mapKey(u)) {
+			vc.touchReachable(st, u.Elem(), depth+1, seen)
+		}
+	case *types.Struct:
+		for i := 0; i < u.NumFields(); i++ {
+			vc.touchReachable(st, u.Field(i).Type(), depth+1, seen)
+		}
+	case *types.Tuple:
+		for i := 0; i < u.Len(); i++ {
+			vc.touchReachable(st, u.At(i).Type(), depth+1, seen)
+		}
+	}
+}
+
 // defaultCall: unconstrained result; when effects is true every heap location is havocked
 // (the callee is in scope of no contract), otherwise only memory reachable from pointer-like arguments.
 func (vc *VC) defaultCall(st *State, name string, fn *ssa.Function, args []Val, rt types.Type, effects bool) Val {
+	// objects the callee allocates are older than anything allocated after the call and may be stored in what it writes
+	vc.bumpAlloc(st)
 	if effects {
 		ws := vc.writeSetOf(fn)
 		if ws == nil {
@@ -350,6 +447,32 @@ func (vc *VC) defaultCall(st *State, name string, fn *ssa.Function, args []Val, 
 	fv, facts := vc.freshVal("ret:"+shortName(name), rt)
 	for _, f := range facts {
 		vc.assume(st, f)
+	}
+	var refRes []Val
+	switch u := rt.(type) {
+	case *types.Tuple:
+		if tv, ok := fv.(*TupleV); ok {
+			for i := 0; i < u.Len() && i < len(tv.Vs); i++ {
+				switch under(u.At(i).Type()).(type) {
+				case *types.Pointer, *types.Slice, *types.Map, *types.Chan:
+					refRes = append(refRes, tv.Vs[i])
+				}
+			}
+		}
+	default:
+		switch under(rt).(type) {
+		case *types.Pointer, *types.Slice, *types.Map, *types.Chan:
+			refRes = append(refRes, fv)
+		}
+	}
+	vc.touchReachable(st, rt, 0, map[string]bool{})
+	for _, r := range refRes {
+		switch x := r.(type) {
+		case *Term:
+			vc.assume(st, Lt(x, vc.allocBase))
+		case *SliceV:
+			vc.assume(st, Lt(x.Arr, vc.allocBase))
+		}
 	}
 	return fv
 }
@@ -411,6 +534,7 @@ func (vc *VC) havocAll(st *State, why string) {
 	for _, name := range vc.reg.sorted() {
 		ki := vc.reg.m[name]
 		st.heap[name] = Fresh("hv:"+name, ki.Sort)
+		st.touchKey(name)
 	}
 	vc.havocLog = append(vc.havocLog, "* ("+why+")")
 	vc.noteHavoc(st, "*")
@@ -542,6 +666,17 @@ func (vc *VC) applyContract(fx *FuncCtx, st *State, fc *FuncContract, sig *types
 			vc.assume(st, f)
 		}
 		res = append(res, fv)
+	}
+	{
+		var refRes []Val
+		for i := 0; i < results.Len(); i++ {
+			switch under(results.At(i).Type()).(type) {
+			case *types.Pointer, *types.Slice, *types.Map, *types.Chan:
+				refRes = append(refRes, res[i])
+			}
+		}
+		vc.bumpAlloc(st, refRes...)
+		vc.touchReachable(st, results, 0, map[string]bool{})
 	}
 	fvars := map[string]*SV{}
 	for n, v := range env.vars {
